@@ -7,15 +7,14 @@ from vlib.verdict import Case
 
 PROPERTY = 'C13'
 MANIFEST = {
- 'level_text': 'Lean 4 theorems about a model of the command tokenizer (the shlex read_token/get_token state machine with pushback and backslash flag, Tokenizer.tokenize/_insideBrackets/_handleToken including the byte-level utf8 -> unicode_escape -> latin-1 -> utf8 decoding chain, callbacks.tokenize, utils.str.dqrepr): tokenising any string under any valid configuration yields a token tree or a syntax error, never another failure; any list of arguments written in double quotes with backslash escaping tokenises back to exactly that list (all Unicode, all bracket styles, pipe on/off, all quote sets containing the double quote); any tree rendered with brackets and quoted or bare-word leaves tokenises back to exactly that tree, and with nesting off the result has no sub-lists; the dqrepr writer round-trips outside one exactly characterised class (recorded finding). Kernel-checked, constants regenerated from /repo on every run, model tied to the code by a differential correspondence run at five levels (tokenize, Tokenizer, lexer, _handleToken, unicode_escape codec) that also evaluates the property statement on the implementation.',
- 'level_note': 'Trusted: Lean kernel (axioms propext/Classical.choice/Quot.sound only); Lean core UTF-8 codec (String.utf8EncodeChar / ByteArray.utf8Decode?, with the core round-trip theorem) standing for Python str.encode("utf8") / bytes.decode(); harness/extractors/tokenizer.py; the correspondence harness. Modelled and proved: shlex lexer as configured by Tokenizer (commenters empty - checked by the extractor), parser incl. pipe epilogue, codec chain incl. octal/hex/u/U escapes and all error branches, callbacks.tokenize configuration logic, dqrepr. Tokens are lists of code points, so the lone-surrogate tokens that \\ud800..\\udfff escapes produce are inside the model (recorded finding C13-surrogate-escape-token; every other token is a string of Unicode scalar values). Outside the model: \\N{name} escapes (model answers "outside", those cases are only checked for totality on the implementation), CPython recursion limit (depth <= 200 in generators; one IRC line carries < 500 brackets), input strings with lone surrogates, registry lookup (getSpecific) of the four configuration values.',
+ 'level_text': 'Lean 4 theorems about a model of the command tokenizer (the shlex read_token/get_token state machine with pushback and backslash flag, Tokenizer.tokenize/_insideBrackets/_handleToken including the byte-level utf8 -> unicode_escape -> latin-1 -> utf8 decoding chain with \\N{name} escapes decoded through a name-table parameter and the final scalar-value check, callbacks.tokenize, utils.str.dqrepr): tokenising any string under any valid configuration and any name table yields a token tree or a syntax error, never another failure; every token is a string of Unicode scalar values; any list of arguments written in double quotes with backslash escaping, or with dqrepr, tokenises back to exactly that list (all Unicode, all bracket styles, pipe on/off, all quote sets containing the double quote); any tree rendered with brackets and quoted or bare-word leaves tokenises back to exactly that tree, and with nesting off the result has no sub-lists. Kernel-checked, constants regenerated from /repo on every run, model tied to the code by a differential correspondence run at several levels (tokenize with scoped configuration, Tokenizer, lexer, _handleToken, unicode_escape codec, writers) that also evaluates the property statement on the implementation.',
+ 'level_note': 'Trusted: Lean kernel (axioms propext/Classical.choice/Quot.sound only); Lean core UTF-8 codec (String.utf8EncodeChar / ByteArray.utf8Decode?, with the core round-trip theorem) standing for Python str.encode("utf8") / bytes.decode(); harness/extractors/tokenizer.py; the correspondence harness. Modelled and proved: shlex lexer as configured by Tokenizer (commenters empty - checked by the extractor), parser incl. pipe epilogue, codec chain incl. octal/hex/u/U/N escapes and all error branches, callbacks.tokenize configuration logic, dqrepr. Parameter: the Unicode name table of the codec (a partial map from the bytes between the braces of \\N{...} to a code point); the driver is given, for every name occurring in the inputs, what the real codec answers. Outside the model: CPython recursion limit (depth <= 200 in generators; one IRC line carries < 500 brackets), input strings with lone surrogates, registry lookup (getSpecific) of the four configuration values (exercised by the scoped stream).',
  'technique': 'Lean 4 proof (induction on input / fuel, state invariant, measure) + table extraction + differential correspondence',
  'design_ref': 'DESIGN.md §6 C13',
 }
-THEOREMS = ['C13.tables_ok', 'C13.ws_subset_seps', 'C13.tokenize_total', 'C13.quote_roundtrip', 'C13.nesting_exact',
-            'C13.nesting_exact_words', 'C13.nesting_disabled_flat',
-            'C13.dqrepr_reread', 'C13.dqrepr_roundtrip_partial', 'C13.dqrepr_roundtrip_counterexample',
-            'C13.dqrepr_class_exact', 'C13.surrogate_escape_token', 'C13.writers_scalar']
+THEOREMS = ['C13.tables_ok', 'C13.ws_subset_seps', 'C13.tokenize_total', 'C13.tokens_scalar', 'C13.surrogate_escape_rejected',
+            'C13.quote_roundtrip', 'C13.nesting_exact', 'C13.nesting_exact_words', 'C13.nesting_disabled_flat',
+            'C13.dqrepr_roundtrip']
 TRUSTED = ['Lean 4.33.0 kernel; axioms ⊆ {propext, Classical.choice, Quot.sound}',
            'Lean core String.utf8EncodeChar / ByteArray.utf8Decode? as the meaning of Python utf-8 encode / strict decode (exercised differentially incl. overlong, surrogate and truncated sequences)',
            'harness/extractors/tokenizer.py (shlex whitespace, Tokenizer separators, commenters == "", ValidBrackets, ValidQuotes → Gen/Tokenizer.lean)',
@@ -654,7 +653,6 @@ def run(ctx):
                             finding_status=finding_status(impl), trusted_base=TRUSTED,
                             assumptions=['input strings are sequences of Unicode scalar values (no lone surrogates)',
                                          'nesting depth <= 200 (CPython recursion limit is not modelled; an IRC line carries < 500 brackets)',
-                                         '\\N{name} escapes are outside the model (totality still checked on the implementation)',
                                          'configuration values passed validation (ValidBrackets, ValidQuotes)'],
                             t0=ctx.t0)
 
